@@ -198,6 +198,14 @@ func c01(c *Ctx) (*report.Result, error) {
 	res.RuleDoc["O1.1"] = "the value acknowledged upstream is a MIN reduction over all entries of ackByTarget (no entry is filtered out), read and updated under ackMu"
 	res.RuleDoc["O1.2"] = "the per-source value computed by AggregateUpTo is a MAX reduction over the entries it covers; only hole entries are skipped"
 	res.RuleDoc["O1.3"] = "recvAck discards ring entries only after the forwarding loop completed, with the very count AggregateUpTo returned in that iteration; a target is counted as done only when DeliverAckToShardOwner returned true; the shutdown exits discard nothing"
+	res.RuleDoc["O1.7"] = "the proxy-id table translates a target's confirmation back to exactly the source ids it covers (the index, growth, append and discard obligations of C05, imported): the per-source value acknowledged upstream is read from this table"
+	if r5, err := c05(c); err == nil && r5 != nil {
+		if n := importObligations(res, r5, "O1.7", nil); n < 10 {
+			res.Undec("O1.7", "proxy-id table obligations", "", fmt.Sprintf("only %d obligations imported from C05", n))
+		}
+	} else {
+		res.Undec("O1.7", "proxy-id table obligations", "", "C05 rule set failed")
+	}
 	res.RuleDoc["O1.6"] = "the watermark replayed to late-registering target shards is a watermark nobody can be behind: every receiver's lastWatermark is written only from watermark-only batches (under len(ReplicationTasks) == 0); the exclusive high watermark of a task batch is not replayed, because its tasks may still be waiting for their target"
 	checkReplayedWatermark(c, res, "O1.6")
 	res.RuleDoc["O1.4"] = "watermark-only batches are offered to every registered target stream of the target cluster and to every remote shard of that cluster (no filter that could starve a target of watermarks)"
